@@ -143,6 +143,22 @@ def check_pair(kind, dims, la, lb, viol):
         if r[(0,) + lb_map[coord]] != a[ia]:
             viol.append(f"C15 value at {coord} moved: source[{ia}]={a[ia]} delivered[{lb_map[coord]}]={r[(0,) + lb_map[coord]]}: {tag}")
             return
+    # masked data: the mask travels with the values
+    from datetime import timedelta
+    t1 = t0 + timedelta(days=1)
+    m = (a % 3 == 0)
+    try:
+        out.push_data(np.ma.array(a + 100.0, mask=m), t1)
+        r2 = inp.pull_data(t1).magnitude
+    except Exception as e:
+        viol.append(f"C15 link with masked data failed: {type(e).__name__}: {str(e)[:80]}: {tag}")
+        return
+    rm = np.ma.getmaskarray(r2)
+    for coord, ia in la_map.items():
+        ib = (0,) + lb_map[coord]
+        if bool(rm[ib]) != bool(m[ia]) or (not m[ia] and np.ma.getdata(r2)[ib] != a[ia] + 100.0):
+            viol.append(f"C15 masked data: location {coord} source masked={bool(m[ia])} delivered masked={bool(rm[ib])} value={np.ma.getdata(r2)[ib]}: {tag}")
+            return
 
 
 def check_unstructured(viol):
